@@ -1229,8 +1229,13 @@ class EventBus:
                 handler_task.cancel()
                 try:
                     await asyncio.wait_for(handler_task, timeout=0.1)
-                except (asyncio.CancelledError, TimeoutError):
-                    pass  # Expected when we cancel the task
+                except TimeoutError:
+                    pass
+                except asyncio.CancelledError:
+                    # Expected when we cancel the task - unless it is this task that is being cancelled
+                    current_task = asyncio.current_task()
+                    if current_task is not None and current_task.cancelling() > 0:
+                        raise
 
             # Ensure monitor task is cancelled
             try:
@@ -1238,7 +1243,10 @@ class EventBus:
                     monitor_task.cancel()
                 await monitor_task
             except asyncio.CancelledError:
-                pass  # Expected when we cancel the monitor
+                # Expected when we cancel the monitor - unless it is this task that is being cancelled
+                current_task = asyncio.current_task()
+                if current_task is not None and current_task.cancelling() > 0:
+                    raise
             except Exception as e:
                 # logger.debug(f"❌ {self} Handler monitor task cleanup error for {get_handler_name(handler)}#{str(id(handler))[-4:]}({event}): {type(e).__name__}: {e}")
                 pass
